@@ -504,7 +504,9 @@ class BGP(protocol.Protocol):
         :return:
         """
 
-        self.msg_recv_stat['Opens'] += 1
+        if len(msg) >= 10:
+            # anything shorter is not an OPEN message (Bad Message Length)
+            self.msg_recv_stat['Opens'] += 1
         open_msg = Open()
         parse_result = open_msg.parse(msg)
         if self.fsm.bgp_peering.peer_asn != open_msg.asn:
